@@ -32,6 +32,7 @@ UNIT_PROPS = {
     "fetch_stage": ["C01"],
     "wire_streams": ["C13"],
     "dag_remove": ["C06"],
+    "policy_config": ["C12"],
     "fetch_validate": ["C01"],
     "service_inventory": ["C11"],
 }
@@ -128,11 +129,11 @@ PROPS = {
         "not_decided": "Exact refill amount tokens' == min(cap, tokens + secs*rate) is only proved on a bounded domain (labelled bounded); the window lemma is over exact integer arithmetic in micro-tokens, f64 rounding of + and * is idealised there; HashMap entry/or_insert_with in limit is a stand-in with arbitrary result.",
     },
     "C12": {
-        "vx": ["worker_auth", "identity"],
+        "vx": ["worker_auth", "identity", "policy_config"],
         "kx": [],
         "technique": "Verus gate idiom on extracted Worker::is_authorized/_process: sink upload_pack has precondition authorized(remote, header.repo); Doc::is_visible_to proved against its definition",
-        "explanation": "Worker::is_authorized returns Ok only if the seeding policy of the requested repository is not Block and the identity document is visible to the requester; Worker::_process can reach the upload_pack sink (whose precondition is exactly that predicate for the same remote and the repository named in the header) only through that gate. Doc::is_visible_to is proved equal to: public, or on the allow list, or a delegate.",
-        "not_decided": "Store reads (seed_policy, repository, identity_doc) return arbitrary values tied to ghost state; request header parsing (which repo id the header names) is string-level code (C13 covers its panic-freedom only); upload_pack itself (git subprocess) is the sink, not verified.",
+        "explanation": "Worker::is_authorized returns Ok only if the seeding policy of the requested repository is not Block and the identity document is visible to the requester; Worker::_process can reach the upload_pack sink (whose precondition is exactly that predicate for the same remote and the repository named in the header) only through that gate. Doc::is_visible_to is proved equal to: public, or on the allow list, or a delegate. The policy consulted (unit policy_config): Config::seed_policy returns the operator's explicit entry for the repository whenever there is one (a block is never overridden by the node-wide default) and the default only when there is none.",
+        "not_decided": "Store reads (the SQL lookup behind seed_policy, repository, identity_doc) return arbitrary values tied to ghost state; request header parsing (which repo id the header names) is string-level code (C13 covers its panic-freedom only); upload_pack itself (git subprocess) is the sink, not verified.",
     },
     "C28": {
         "vx": ["storage_clean"],
